@@ -367,6 +367,7 @@ def make_server_class(env, kind='rpc'):
             rig = self.rig
             rig.evs.append(f'E{i}')
             rig.started_at[i] = self.loop.time()
+            rig.task_of[i] = asyncio.current_task()
             if i in rig.waiting:
                 rig.waiting.remove(i)
             rig.hold.append(i)
@@ -403,6 +404,7 @@ class SessRig:
         self.waiting = []
         self.hooks = []
         self.started_at = {}
+        self.task_of = {}
         self.on_start = lambda i: None
         self.peak = 0
         self.received = 0
@@ -757,6 +759,147 @@ def evaluate_throttle_order(ctx, res, cases):
             res.nontrivial(json.dumps(c, sort_keys=True))
 
 
+def _task_no(t):
+    name = t.get_name()
+    return int(name.rsplit('-', 1)[1]) if '-' in name and name.rsplit('-', 1)[1].isdigit() else 0
+
+
+def run_teardown_case(env, case):
+    """`unanswered_request_count()` while handlers are ENDED FROM OUTSIDE.  Requests and
+    notifications are fed to a session (RPCSession or MessageSession) with gate-controlled handlers
+    and a small limit, so that some handlers run and some invocations are still queued for a slot;
+    some finish normally; then the handling of the rest is ended by `ending`:
+      lost / close / abort   - the connection goes away (the message loop ends, the task group
+                               cancels the handlers - running and queued alike),
+      ptimeout               - processing_timeout fires (running and queued),
+      cancel-running/-queued - the task of one handler invocation is cancelled from outside,
+      refuse                 - the limit goes to 0: queued invocations are refused, session closes.
+    Oracle, from the text ("the unanswered-request count equals the number of received requests
+    and notifications whose handling has not finished"): after every step the PUBLIC
+    `unanswered_request_count()` equals the number of handler invocations (one task per received
+    request / notification, found through `asyncio.all_tasks`) that are not done - however they
+    ended.  Oracle only for the count after the loop task is gone; the Lean session model covers
+    finish-by-cancellation (`unanswered_count`, `unanswered_after_teardown`)."""
+    kind = case.get('kind', 'rpc')
+    attrs = dict(error_base_cost=0.0, bw_cost_per_byte=0.0, processing_timeout=case['ptimeout'])
+    rig = SessRig(env, case['init'], attrs, kind=kind)
+    s, conc = rig.s, rig.conc
+    key = why = None
+    stats = dict(ended_running=0, ended_queued=0, checks=0)
+    handlers = []          # tasks of handler invocations, in creation order
+
+    def fail(kk, w):
+        nonlocal key, why
+        if why is None:
+            key, why = kk, w
+
+    def check(what):
+        alive = [t for t in handlers if not t.done()]
+        got = s.unanswered_request_count()
+        stats['checks'] += 1
+        if got != len(alive):
+            fail('c13:unanswered-count',
+                 f'{what}: unanswered_request_count() = {got}, but {len(alive)} of the {len(handlers)} received '
+                 f'requests/notifications have not finished being handled ({len(rig.hold)} handlers running, '
+                 f'{len(handlers) - len(alive)} ended)')
+
+    def feed(items, as_batch):
+        before = set(asyncio.all_tasks(env.loop))
+        rig.feed(items, as_batch)
+        env.idle()
+        new = sorted(set(asyncio.all_tasks(env.loop)) - before, key=_task_no)
+        # tasks that were created and have already ended are found through the ids that started
+        handlers.extend(new)
+        for i, _r in items:
+            t = rig.task_of.get(i)
+            if t is not None and t not in handlers:
+                handlers.append(t)
+
+    nid = 0
+    for size, mode in case['bursts']:
+        items = [(nid + j, (nid + j) % 3 != 2) for j in range(size)]
+        nid += size
+        feed(items, mode == 'batch' and kind == 'rpc' and size > 1)
+        check(f'after receiving {size} more')
+    for _ in range(case['finish_first']):
+        if rig.hold:
+            rig.gate[rig.hold[0]].set_result(None)
+            env.idle()
+            check('after a handler finished')
+    stats['ended_running'] = len(rig.hold)
+    stats['ended_queued'] = len([t for t in handlers if not t.done()]) - len(rig.hold)
+    ending = case['ending']
+    mine = []
+    if ending == 'lost':
+        rig.tr.close()
+    elif ending == 'close':
+        mine.append(env.loop.create_task(s.close()))
+    elif ending == 'abort':
+        mine.append(env.loop.create_task(s.abort()))
+    elif ending == 'ptimeout':
+        env.advance(case['ptimeout'] + 1)
+    elif ending == 'cancel-running':
+        if rig.hold:
+            rig.task_of[rig.hold[-1]].cancel()
+    elif ending == 'cancel-queued':
+        started = set(rig.task_of.values())
+        queued = [t for t in handlers if not t.done() and t not in started]
+        if queued:
+            queued[0].cancel()
+    elif ending == 'refuse':
+        conc.set_target(0)
+        for i in list(rig.hold):
+            rig.gate[i].set_result(None)
+            env.idle()
+    env.idle()
+    check(f'right after {ending}')
+    env.advance(1.0)
+    check(f'1s after {ending}')
+    # whoever is still running may finish now
+    for i in list(rig.hold):
+        if not rig.gate[i].done():
+            rig.gate[i].set_result(None)
+    env.idle()
+    check(f'after the remaining handlers finished ({ending})')
+    env.advance(case['ptimeout'] + 31)
+    check(f'long after {ending}')
+    for t in mine:
+        t.cancel()
+    env.close_loop()
+    env.new_loop()
+    return key, why, stats
+
+
+def teardown_cases(rng, count):
+    out = []
+    endings = ['lost', 'close', 'abort', 'ptimeout', 'cancel-running', 'cancel-queued', 'refuse']
+    for c in range(count):
+        init = [1, 2, 3][c % 3]
+        bursts = [(rng.randint(1, init + 3), rng.choice(['batch', 'chunk'])) for _ in range(rng.randint(1, 3))]
+        out.append(dict(init=init, bursts=bursts, finish_first=rng.randint(0, 2), ending=endings[c % len(endings)],
+                        ptimeout=rng.choice([2.0, 30.0]), kind='msg' if (c // 7) % 3 == 2 else 'rpc'))
+    return out
+
+
+def _td_batch(cases):
+    return [run_teardown_case(_env, c) for c in cases]
+
+
+def evaluate_teardown(ctx, res, cases):
+    results = _pmap(ctx, _td_batch, cases, chunk=20)
+    for case, (key, why, stats) in zip(cases, results):
+        c = dict(case, level='teardown')
+        if why:
+            res.violation(key, c, why)
+        res['evaluations'] += 1
+        res.count('teardown_cases')
+        res.count('teardown_handlers_ended_while_running', stats['ended_running'])
+        res.count('teardown_invocations_ended_while_queued', stats['ended_queued'])
+        res.count('unanswered_count_readings', stats['checks'])
+        if stats['ended_running'] and stats['ended_queued']:
+            res.nontrivial(json.dumps(c, sort_keys=True))
+
+
 def random_session_script(rng):
     init = rng.choice([1, 2, 3, 5, 20])
     kind = 'msg' if rng.random() < 0.35 else 'rpc'
@@ -865,6 +1008,8 @@ def run(ctx):
     evaluate_throttle_timeout(ctx, res, throttle_timeout_cases(rng, ntt))
     nto = 60
     evaluate_throttle_order(ctx, res, throttle_order_cases(rng, nto))
+    ntd = 56
+    evaluate_teardown(ctx, res, teardown_cases(rng, ntd))
     nsess = 300
     sres = _pmap(ctx, _sess_batch, [random_session_script(rng) for _ in range(nsess)], chunk=100)
     check_session_results(ctx, res, sres)
@@ -889,9 +1034,13 @@ def run(ctx):
         more = 1500 if full else 200
         evaluate_throttle_order(ctx, res, throttle_order_cases(rng, more))
         nto += more
+        more = 1400 if full else 140
+        evaluate_teardown(ctx, res, teardown_cases(rng, more))
+        ntd += more
     res['scopes']['session'] = nsess
     res['scopes']['session_timeout_while_throttled'] = ntt
     res['scopes']['session_arrival_order_while_throttled'] = nto
+    res['scopes']['session_handlers_ended_from_outside'] = ntd
     for init, script, _kd, ops, recs, _k, _w, _c in sres[:2]:
         res.sample({'level': 'session', 'case': fmt_case(init, ops)[:300],
                     'impl': ' | '.join(r for r in recs if r)[:400]})
@@ -905,6 +1054,10 @@ def replay(ctx, case):
     _init(ctx.repo)
     if case.get('level') == 'throttle-timeout':
         evaluate_throttle_timeout(ctx, res, [{k: v for k, v in case.items() if k != 'level'}])
+    elif case.get('level') == 'teardown':
+        c = {k: v for k, v in case.items() if k != 'level'}
+        c['bursts'] = [tuple(b) for b in c['bursts']]
+        evaluate_teardown(ctx, res, [c])
     elif case.get('level') == 'throttle-order':
         c = {k: v for k, v in case.items() if k != 'level'}
         c['steps'] = [tuple(x) for x in c['steps']]
